@@ -54,6 +54,12 @@ D4 == {Op("iff", <<n, a>>) : n \in NegC, a \in {Rb, LeXY}} \cup {Op("iff", <<a, 
       \cup {Op("and", <<Op("implies", <<n, Rb>>), Op("implies", <<EqBC, n>>)>>) : n \in NegC}
       \cup {Op("or", <<Op("and", <<n, Rb>>), Op("not", <<Op("or", <<n, EqBC>>)>>)>>) : n \in NegC}
       \cup {Op("iff", <<n, m>>) : n \in NegC, m \in NegC}
+      \* a non-commutative connective over the same operands in BOTH argument orders (and permuted ite)
+      \cup {Op(o, <<Op("implies", <<a, b>>), Op("not", <<Op("implies", <<b, a>>)>>)>>) :
+                o \in {"and", "or"}, a \in {P, LeXY}, b \in {Q, EqBC}}
+      \cup {Op("and", <<Op("ite", <<P, Q, Rb>>), Op("not", <<Op("ite", <<Q, P, Rb>>)>>)>>),
+            Op("or", <<Op("ite", <<P, Q, Rb>>), Op("ite", <<P, Rb, Q>>)>>),
+            Op("iff", <<Op("implies", <<P, Q>>), Op("implies", <<Q, P>>)>>)}
 QF == D1f \cup D2 \cup D3 \cup D4
 
 VarSets == {<<BVar("p", TBool)>>, <<BVar("b", TBV(2))>>, <<BVar("p", TBool), BVar("q", TBool)>>, <<BVar("x", TInt)>>}
